@@ -284,9 +284,12 @@ Inductive column :=
 | ColFirst (c : collref) (g : guard) (body : pa) (line : string)
     (* e.Coll("bank")[.Where(p)].Select(lambda x: body).First()  (or ....First().m()): the first passing element's
        value; `line` is the emitted throw statement (its message quotes the query text) *)
-| ColVec2 (c1 : collref) (g1 : guard) (c2 : collref) (g2 : guard) (body : bexp).
+| ColVec2 (c1 : collref) (g1 : guard) (c2 : collref) (g2 : guard) (body : bexp)
     (* e.C1("b1")[.Where(p1)].Select(lambda o: e.C2("b2")[.Where(p2)].Select(lambda x: body)): one vector per passing
        element of the first collection (the second collection is retrieved inside the outer loop) *)
+| ColFlat (c1 : collref) (g1 : guard) (c2 : collref) (g2 : guard) (body : bexp).
+    (* e.C1("b1")[.Where(p1)].SelectMany(lambda o: e.C2("b2")[.Where(p2)]).Select(lambda x: body)  (or with the Select inside
+       the SelectMany lambda): ONE vector, the second collection's values once per passing element of the first *)
 Definition row := list (string * column).                      (* branch name, column *)
 
 Fixpoint ex_size (e : ex) : nat :=
@@ -299,7 +302,7 @@ Fixpoint ex_size (e : ex) : nat :=
 Definition col_size (c : column) : nat :=
   match c with
   | ColScalar e => ex_size e | ColVec _ g body => 2 + gsize g + nifs body | ColFirst _ g _ _ => 3 + gsize g
-  | ColVec2 _ g1 _ g2 body => 4 + gsize g1 + gsize g2 + nifs body
+  | ColVec2 _ g1 _ g2 body | ColFlat _ g1 _ g2 body => 4 + gsize g1 + gsize g2 + nifs body
   end.
 (* number of 2-D columns: each has one local vector, named after all class members *)
 Definition col_nts (c : column) : nat := match c with ColVec2 _ _ _ _ _ => 1 | _ => 0 end.
@@ -310,6 +313,7 @@ Definition col_type (c : column) : string :=
   match c with
   | ColScalar e => ex_type e | ColVec _ _ body => vec_type (btype body) | ColFirst _ _ body _ => pa_type body
   | ColVec2 _ _ _ _ body => vec_type (vec_type (btype body))
+  | ColFlat _ _ _ _ body => vec_type (btype body)
   end.
 
 (* class variable of column k: unique_name(name, is_class_var=True) after all per-event names *)
@@ -345,6 +349,15 @@ Definition tvec2_loop (idiom : string) (c1 : collref) (g1 : guard) (c2 : collref
        (loop_block (iv_name n) (c_arrow c1) g1 n (tvec2_decls c2 body nt (c2_at n g1))
                    (tvec2_inner idiom c2 g2 body mem nt (c2_at n g1))).
 
+(* flattened: the inner loop pushes onto the column itself *)
+Definition tflat_inner (idiom : string) (c2 : collref) (g2 : guard) (body : bexp) (mem : string) (m : nat) : stmts :=
+  SCons (SFetch idiom (vcv_name c2 m) (c_ctype c2) (c_bank c2) (fetch_lines idiom (c_ctype c2) (c_bank c2)))
+        (one_stmt (tvec_loop c2 g2 body mem m)).
+Definition tflat_loop (idiom : string) (c1 : collref) (g1 : guard) (c2 : collref) (g2 : guard) (body : bexp) (mem : string) (n : nat) : stmt :=
+  SFor (iv_name n) (CDeref (CVar (vcv_name c1 n)))
+       (loop_block (iv_name n) (c_arrow c1) g1 n [{| d_type := c_ctype c2; d_name := vcv_name c2 (c2_at n g1); d_init := None |}]
+                   (tflat_inner idiom c2 g2 body mem (c2_at n g1))).
+
 (* code of one column in the event block: declarations, statements, next index; ntk = index of the next local vector *)
 Definition tcol (idiom : string) (c : column) (mem : string) (ntk n : nat) : list decl * stmts * nat :=
   match c with
@@ -352,6 +365,11 @@ Definition tcol (idiom : string) (c : column) (mem : string) (ntk n : nat) : lis
       ([{| d_type := c_ctype c1; d_name := vcv_name c1 n; d_init := None |}],
        SCons (SFetch idiom (vcv_name c1 n) (c_ctype c1) (c_bank c1) (fetch_lines idiom (c_ctype c1) (c_bank c1)))
              (one_stmt (tvec2_loop idiom c1 g1 c2 g2 body mem (nt_name ntk) n)),
+       n + (4 + gsize g1 + gsize g2 + nifs body))
+  | ColFlat c1 g1 c2 g2 body =>
+      ([{| d_type := c_ctype c1; d_name := vcv_name c1 n; d_init := None |}],
+       SCons (SFetch idiom (vcv_name c1 n) (c_ctype c1) (c_bank c1) (fetch_lines idiom (c_ctype c1) (c_bank c1)))
+             (one_stmt (tflat_loop idiom c1 g1 c2 g2 body mem n)),
        n + (4 + gsize g1 + gsize g2 + nifs body))
   | ColScalar e => let '(ds, ss, _, n') := te idiom e n in (ds, ss, n')
   | ColVec cr g body =>
@@ -386,7 +404,7 @@ Fixpoint trow_sets (idiom : string) (r : row) (nf k n : nat) : stmts :=
       | ColScalar e => let '(_, _, ce, n') := te idiom e n in SCons (SSet (mem_name name (nf + k)) None ce) (trow_sets idiom t nf (S k) n')
       | ColVec _ g body => trow_sets idiom t nf (S k) (S (S n) + gsize g + nifs body)
       | ColFirst _ g _ _ => trow_sets idiom t nf (S k) (S (S (S n)) + gsize g)
-      | ColVec2 _ g1 _ g2 body => trow_sets idiom t nf (S k) (n + (4 + gsize g1 + gsize g2 + nifs body))
+      | ColVec2 _ g1 _ g2 body | ColFlat _ g1 _ g2 body => trow_sets idiom t nf (S k) (n + (4 + gsize g1 + gsize g2 + nifs body))
       end
   end.
 Fixpoint trow_clears (r : row) (nf k : nat) : stmts :=
@@ -395,7 +413,7 @@ Fixpoint trow_clears (r : row) (nf k : nat) : stmts :=
   | (name, c) :: t =>
       match c with
       | ColScalar _ | ColFirst _ _ _ _ => trow_clears t nf (S k)
-      | ColVec _ _ _ | ColVec2 _ _ _ _ _ => SCons (SClear (mem_name name (nf + k))) (trow_clears t nf (S k))
+      | ColVec _ _ _ | ColVec2 _ _ _ _ _ | ColFlat _ _ _ _ _ => SCons (SClear (mem_name name (nf + k))) (trow_clears t nf (S k))
       end
   end.
 Fixpoint row_members (r : row) (nf k : nat) : list member :=
@@ -576,8 +594,28 @@ Fixpoint vec2_loop (ev : event) (g1 : guard) (c2 : collref) (g2 : guard) (body :
   | v :: r => rdo b <- gpasses ev v g1;
               if b then rdo x <- dvec_of ev c2 g2 body; vec2_loop ev g1 c2 g2 body r (acc ++ [x]) else vec2_loop ev g1 c2 g2 body r acc
   end.
+Fixpoint flat_loop (ev : event) (g1 : guard) (c2 : collref) (g2 : guard) (body : bexp) (l : list value) (acc : list value) : res (list value) :=
+  match l with
+  | [] => ROk acc
+  | v :: r => rdo b <- gpasses ev v g1;
+              if b then
+                match assoc_ss (c_ctype c2, c_bank c2) (ev_colls ev) with
+                | None => RFault FRetrieve
+                | Some (VVec l2) => rdo acc' <- vec_loop ev (btype body) body g2 l2 acc; flat_loop ev g1 c2 g2 body r acc'
+                | Some VNull => RFault FNullDeref
+                | Some _ => RStuck (KType "the bank does not hold a collection")
+                end
+              else flat_loop ev g1 c2 g2 body r acc
+  end.
 Definition dcol (ev : event) (c : column) : res value :=
   match c with
+  | ColFlat c1 g1 c2 g2 body =>
+      match assoc_ss (c_ctype c1, c_bank c1) (ev_colls ev) with
+      | None => RFault FRetrieve
+      | Some (VVec l) => rdo vs <- flat_loop ev g1 c2 g2 body l []; ROk (VVec vs)
+      | Some VNull => RFault FNullDeref
+      | Some _ => RStuck (KType "the bank does not hold a collection")
+      end
   | ColVec2 c1 g1 c2 g2 body =>
       match assoc_ss (c_ctype c1, c_bank c1) (ev_colls ev) with
       | None => RFault FRetrieve
@@ -767,6 +805,13 @@ Definition d_col (s : sexp) : option (string * column) :=
       match d_bool ar1, d_guard ps1, d_bool ar2, d_guard ps2, d_bexp b with
       | Some a1, Some g1, Some a2, Some g2, Some b' =>
           Some (name, ColVec2 {| c_base := base1; c_ctype := ct1; c_bank := bank1; c_arrow := a1 |} g1
+                              {| c_base := base2; c_ctype := ct2; c_bank := bank2; c_arrow := a2 |} g2 b')
+      | _, _, _, _, _ => None
+      end
+  | SList [SAtom name; SList [SAtom "flat"; SAtom base1; SAtom ct1; SAtom bank1; ar1; SList ps1; SAtom base2; SAtom ct2; SAtom bank2; ar2; SList ps2; b]] =>
+      match d_bool ar1, d_guard ps1, d_bool ar2, d_guard ps2, d_bexp b with
+      | Some a1, Some g1, Some a2, Some g2, Some b' =>
+          Some (name, ColFlat {| c_base := base1; c_ctype := ct1; c_bank := bank1; c_arrow := a1 |} g1
                               {| c_base := base2; c_ctype := ct2; c_bank := bank2; c_arrow := a2 |} g2 b')
       | _, _, _, _, _ => None
       end
